@@ -37,23 +37,20 @@ def parseNum? (s : String) : Option Float :=
   else
     (parseInt? s).map Float.ofInt
 
-/-- result coordinate.  `full = false` (the verdict path): rounded to the grid `2^-30` (≈ 1e-9), so that numerically
-    harmless rewrites of the crate do not show up as correspondence drift; `full = true` (case prefix `bits`, used only
-    for the logged bit-equality sample): 16 hex digits of the bit pattern.  `nan` for every NaN. -/
-def showNum (full : Bool) (f : Float) : String :=
-  if f.isNaN then "nan"
-  else if full then toHex f.toBits.toNat 16
-  else
-    let g := Float.round (f * Float.ofNat 1073741824)
-    if g.abs < Float.ofNat 4000000000000000000 then toString g.toInt64
-    else if Float.ofNat 0 < g then "big+" else "big-"
+/-- coordinate as 16 hex digits of the bit pattern (`nan` for every NaN) — only used with the case prefix `bits`,
+    i.e. for the logged diagnostics (bit-equality sample, largest |impl − model| coordinate difference). -/
+def showNum (f : Float) : String :=
+  if f.isNaN then "nan" else toHex f.toBits.toNat 16
 
-def showPoint (full : Bool) (p : Point Float) : String := showNum full p.x ++ " " ++ showNum full p.y
+def showPoint (p : Point Float) : String := showNum p.x ++ " " ++ showNum p.y
 
-def showCL (full : Bool) (r : CL Float) : String :=
-  " ".intercalate (r.kind :: r.points.map (showPoint full))
+/-- raw result.  Verdict path (`full = false`): kind + number of points — coordinates are NOT compared between model and
+    crate (a numerically harmless rewrite moves them by rounding noise); each side's own points are judged exactly by the
+    point predicate of the view.  Diagnostic path (`full = true`): kind + bit patterns. -/
+def showPts (full : Bool) (kind : String) (ps : List (Point Float)) : String :=
+  if full then " ".intercalate (kind :: ps.map showPoint) else kind ++ " " ++ toString ps.length
 
-def showCC (full : Bool) (r : CC Float) : String :=
-  " ".intercalate (r.kind :: r.points.map (showPoint full))
+def showCL (full : Bool) (r : CL Float) : String := showPts full r.kind r.points
+def showCC (full : Bool) (r : CC Float) : String := showPts full r.kind r.points
 
 end Rlib.Geometry
